@@ -1280,12 +1280,13 @@ def key_for(kind, ann=None, extra=''):
 def judge(sess, iv):
     """the property evaluated on the implementation's observations alone.  returns list of dict(kind, key, line, rank, detail)"""
     fails = []
-    ctx = dict(key=None, stop=False)
+    ctx = dict(key=None, stop=False, ranks=set())
     DERAIL = {'post-rc', 'bput-refused', 'status', 'wait-rc', 'nreqs', 'late-or-early-delivery', 'id-not-reset',
               'no-observation', 'readback-rejected'}
     def fail(kind, key, ln, r, detail):
-        if ctx['key']:
-            key = ctx['key']          # consequence of an earlier erroneous call (see the generator)
+        if ctx['key'] and not key.startswith(('F2', 'F7')) and \
+           (r in ctx['ranks'] or kind in ('file-content', 'file-bytes', 'numrecs', 'readback-rejected')):
+            key = ctx['key']          # consequence of an earlier erroneous call on this process (see the generator)
         fails.append(dict(kind=kind, key=key, line=ln, rank=r, detail=detail))
         if kind in DERAIL or ctx['key']:
             ctx['stop'] = True        # the SPEC's and the library's sets of pending requests differ from here on
@@ -1412,6 +1413,7 @@ def judge(sess, iv):
                 rc = int(t[1])
                 if anyerr and not ann['erroneous'] and not ctx['key']:
                     ctx['key'] = 'waitall:error-on-one-process-drops-the-others'
+                    ctx['ranks'] = set(range(sess.np))
                 pairs = t[3:3 + max(n, 0)]
                 stats = [tuple(int(x) for x in p.split(':')) for p in pairs if ':' in p]
                 if ann['erroneous']:
@@ -1421,6 +1423,7 @@ def judge(sess, iv):
                         live.pop(key, None)
                     if not ctx['key'] and len(items) == 1:
                         ctx['key'] = 'F3:duplicate-ids-complete-unnamed-shortcut' if ann['shortcut'] else 'wait:failed-wait-poisons-named-requests'
+                        ctx['ranks'] = {r}
                     continue
                 exp_status = []
                 for x in ann['named']:
